@@ -4,11 +4,18 @@ import random
 import corecheck
 import worlds
 
-FAM = {'C04'}
+# 'the remaining layers are still torn down' is C01's end-of-process clause
+FAM = {'C04', 'C01:left-set-up', 'C01:tearDown-count'}
 EXCS = ['ValueError', 'KeyError', 'TypeError', 'RuntimeError', 'OSError',
         'ZeroDivisionError', 'WorldError', 'OddError', 'AttributeError',
         'StopIteration', 'Exception', 'AssertionError', 'UnicodeError',
-        'NotImplementedError', 'SystemExit', 'UnhashableError']
+        'NotImplementedError', 'SystemExit', 'UnhashableError', 'SyntaxError',
+        'IndentationError', 'ImportError', 'RecursionError', 'BlockingIOError',
+        'EOFError', 'LookupError', 'ArithmeticError']
+# messages a formatter might trip over: empty, format characters, a line that
+# looks like a traceback location without its ', in name' part, escape sequences
+MSGS = ['', '%s %d %(x)s', '  File "x.py", line 3', 'two\nlines', 'tab\there', '\x1b[31mred',
+        'File "y.py", line 1, in f', '{0} {}', 'caf\u00e9 \u2603']
 
 
 CHAINS = ['cause', 'context', 'cause_group', 'cause_self', 'cause_cycle']
@@ -21,6 +28,8 @@ def vary_exceptions(rng, world):
             if isinstance(a, dict):
                 if a.get('a') == 'error':
                     a['exc'] = rng.choice(EXCS)
+                    if rng.random() < 0.25 and a['exc'] != 'OddError':
+                        a['msg'] = rng.choice(MSGS)
                     if rng.random() < 0.3:
                         a['chain'] = rng.choice(CHAINS)
                 if 'do' in a:
@@ -69,6 +78,8 @@ def run(chk, tier, seed, replay=None):
             o['repeat'] = 2
         if r.random() < 0.12:
             o['j'] = r.choice([2, 3])
+        if r.random() < 0.3:
+            o['color'] = True        # the colourising formatter has code paths of its own
         return o
     allk = list(worlds.OUTCOMES)
     prof_a = {'sweep': True, 'kinds': 'mixed', 'hooks': 'random',
